@@ -269,11 +269,14 @@ Definition skipped (v : str) : bool := str_eqb v ch_na || is_empty v.
    reference goes through the remover (never through plain substitution) *)
 Theorem na_is_removed_fixed (text ref v : str) :
   skipped v = true -> replace_ref true text ref v = Ok (remove_ref_fixed (brace ref) text).
-Proof. unfold skipped, replace_ref. intros H. rewrite H. reflexivity. Qed.
+Proof. unfold skipped, replace_ref, replace_ref_gen, blank_ref_removed. intros H. rewrite H. reflexivity. Qed.
 
 (* ... and the remover never raises and is independent of which skipped value it was *)
 Theorem replace_ref_fixed_total (text ref v : str) : exists r, replace_ref true text ref v = Ok r.
-Proof. unfold replace_ref. destruct (str_eqb v ch_na || is_empty v); eauto. Qed.
+Proof.
+  unfold replace_ref, replace_ref_gen.
+  destruct (str_eqb v ch_na || is_empty v || (blank_ref_removed && is_blank v)); eauto.
+Qed.
 
 Definition s_cat_square : str := [123; 99; 125; 44; 32; 83]%N.            (* "{c}, S" *)
 Definition s_c : str := [99]%N.
@@ -326,7 +329,7 @@ Proof.
   - apply empty_value_cell_fixed. exact H.
   - unfold category_handler. rewrite (Hk kv eq_refl). reflexivity.
   - unfold skipped in H. unfold keep_part. destruct x; simpl in *; [reflexivity|].
-    rewrite orb_false_r in H. rewrite H. reflexivity.
+    rewrite orb_false_r in H. rewrite H. apply andb_false_r.
 Qed.
 
 (* ---------- splice_tree / splice_well_delimited: bounded exhaustive ---------- *)
